@@ -416,9 +416,23 @@ func c11Scenarios(thorough bool) []c11Case {
 
 func checkC11(c *ev.Ctx) {
 	c11Setup()
-	c.Rule("engine E2 over real goroutines calling one real shimagent.Server (built by shimagent.New through the dial seam; sync of shimagent, yubiagent and x/crypto's agent client replaced by scheduler-visible primitives; every Write/Read on the upstream connection is a scheduling point): every unordered pair (incl. equal pairs) of {List, Signers, Sign(K1), Sign(h1), Add, Remove, RemoveAll, AddHardCert, Lock, Unlock, Extension, Forward} on two threads x both upstream modes, Unlock racing with every operation from a locked start, and 12 three-thread scenarios; initial state with an expired certificate in the underlying agent AND one in memory (purging happens inside the operations) and an uncached YSSHCA certificate; preemption bound 2 (thorough 3; three-thread scenarios additionally at most 3 (4) departures from the canonical order). Oracles on every complete execution: all threads finish, connection-exclusion monitor, own-reply check (digest echo), brute-force linearizability against all n! sequential orders computed with the same real code. states = executions, transitions = scheduling events. Declared side pass (sampling, not deciding): the same bodies free-running under -race with 2..16 goroutines. non-trivial = execution with at least one branch point; distinct by (scenario, schedule)")
+	c.Rule("engine E2 over real goroutines calling one real shimagent.Server (built by shimagent.New through the dial seam; sync of shimagent, yubiagent and x/crypto's agent client replaced by scheduler-visible primitives; every Write/Read on the upstream connection is a scheduling point): every unordered pair (incl. equal pairs) of {List, Signers, Sign(K1), Sign(h1), Add, Remove, RemoveAll, AddHardCert, Lock, Unlock, Extension, Forward} on two threads x both upstream modes, Unlock racing with every operation from a locked start, 12 three-thread scenarios, and 8 server-level scenarios (one yubiagent.ServeAgent thread per client connection on scheduler-visible pipes in front of one shared server/shim, preemption bound 2 and at most 3 departures from the canonical order); initial state with an expired certificate in the underlying agent AND one in memory (purging happens inside the operations) and an uncached YSSHCA certificate; preemption bound 2 (thorough 3; three-thread scenarios additionally at most 3 (4) departures from the canonical order). Oracles on every complete execution: all threads finish, connection-exclusion monitor, own-reply check (digest echo), brute-force linearizability against all n! sequential orders computed with the same real code. states = executions, transitions = scheduling events. Declared side pass (sampling, not deciding): the same bodies free-running under -race with 2..16 goroutines. non-trivial = execution with at least one branch point; distinct by (scenario, schedule)")
 	c.Assume("scheduling points at synchronisation and connection operations suffice provided there is no data race; data races are looked for by the separate free-running -race pass", "2-3 threads with one operation each; 4-16 goroutines only in the race pass")
 	if c.ReplayCase != nil {
+		var sk c11SrvCase
+		json.Unmarshal(c.ReplayCase, &sk)
+		if sk.Server {
+			s, verdict, cv := c11SrvRun(sk, sk.Schedule)
+			if len(s.Deadlocked) > 0 || cv != "" || len(s.Panics()) > 0 {
+				c.Violation("C11:server:replayed", fmt.Sprintf("deadlocked=%v conn=%q panics=%v", s.Deadlocked, cv, s.Panics()), sk)
+			}
+			for i, v := range verdict {
+				if v != "" {
+					c.Violation("C11:server:wrong-reply", fmt.Sprintf("client %d: %s", i, v), sk)
+				}
+			}
+			return
+		}
 		var k c11Case
 		json.Unmarshal(c.ReplayCase, &k)
 		seq := c11Sequential(k)
@@ -442,6 +456,16 @@ func checkC11(c *ev.Ctx) {
 		}
 	}
 	c.Sharded(8, 8, func(shard int) {
+		for i, reqs := range c11SrvScenarios {
+			if i%8 != shard {
+				continue
+			}
+			dev := bound + 1
+			if len(reqs) > 2 {
+				dev = bound
+			}
+			c11SrvExplore(c, c11SrvCase{Requests: reqs}, bound, dev)
+		}
 		for i, k := range scen {
 			if i%8 != shard {
 				continue
@@ -456,7 +480,7 @@ func checkC11(c *ev.Ctx) {
 			}
 		}
 	})
-	c.Set("scenarios", len(scen))
+	c.Set("scenarios", len(scen)+len(c11SrvScenarios))
 	if !c.IsChild() {
 		racePass(c)
 	}
